@@ -87,6 +87,10 @@ def proj_world(which):
         a, b = world_pubs(c.impl), world_pubs(c.model)
         if which == 'gen':      # the generation word after each publication
             return ([t[-1] for t in a if t[-1].startswith('@')], [t[-1] for t in b if t[-1].startswith('@')])
+        if which == 'queries':  # what the long-lived client of the history was told
+            qa = [g for g in c.impl.split(' ; ') if g.startswith('ok ') or g.startswith('err ')]
+            qb = [g for g in c.model.split(' ; ') if g.startswith('ok ') or g.startswith('err ')]
+            return (qa, qb)
         # 'trust': as-of, bound and status of each published record
         return ([(t[1:3], t[5:6], t[8:9]) for t in a], [(t[1:3], t[5:6], t[8:9]) for t in b])
     return p
@@ -215,7 +219,7 @@ def c19_gen(seed, thorough):
         for v in (2**64 // 1000, 2**64 // 1000 + 1, 2**64 // 1000 + 51, 2**64 - 1, 2**64, 2**63, 2**32 * 1000, 2**32 + 50, 2**64 // 1000 * 3 + 2, 10**30):
             reqs.append(f'drift {v}')
         # the option takes whole ppm: fractions are rejected (or, if ever accepted, published exactly)
-        for v in ('1.015', '2.002', '0.0004', '33.333333', '0.5', '4294967.2959', '1.000'):
+        for v in ('1.015', '2.002', '0.0004', '33.333333', '0.5', '4294967.2959', '1.000', '4294967.296', '4294967.5', '4294967.999', '4294966.9999', '0.9999', '4294968.0'):
             reqs.append(f'drift {v}')
         return c19_run(reqs)
     return [g]
@@ -355,7 +359,7 @@ PROPS.update({
  'C02': sl_entry('C02', lambda c: 'overlap' in c.tags,
     "non-trivial = the writer takes at least one step between the first and last shared access of some snapshot() call (tag overlap)",
     gens=lambda seed, th: [['slgen', seed, 40000 if th else 1500], ['slxgen', 'all'] if th else ['slxgen']] + ([['slabagen']] if th else []),
-    relevant=lambda c: kind(c) in ('sl', 'slaba', 'slx'),
+    relevant=lambda c: kind(c) in ('sl', 'slaba', 'slx', 'slxc'),
     lean_modules=['ClockBound.Properties.C02', 'ClockBound.Properties.C02Full', 'ClockBound.Properties.C02N'],
     technique='Lean 4 invariant proof over all interleavings and all stale-read choices of an operational release/acquire model (writer invariant + reader lemma), parameterised by the observed ordering annotation + schedule-level differential correspondence of the real writer/reader under a deterministic scheduler',
     level_text='Theorems C02.even_generation_is_complete (writer invariant over every history incl. crashes/restarts), accept_consistent (an accepted attempt copied exactly the record as of its first generation message, provided fewer than 32767 updates completed between its two generation reads), no_mixture / no_mixture_general (every returned record is the empty one, the pre-existing one or one passed to write) for every annotation satisfying Ann.adequate; projection / no_mixture_any_readers lift this to any number of readers (readers never write: an N-reader system projects reader by reader onto the one-reader system); C02.full_false proves that without the no-wrap hypothesis the statement is false of the protocol (an explicit 360 000-step execution in which 32767 updates complete inside one read attempt and the mixture 7,7,7,9,9,9,9 is returned; generation_cycle is its arithmetic heart). The annotation is observed from the real code on every run; ~1500 seeded schedules (incl. stale reads and crashes) are executed on the real code and replayed by the model token by token.',
@@ -363,10 +367,10 @@ PROPS.update({
  ),
  'C03': sl_entry('C03', lambda c: ('calls2' in c.tags and ('pubs2' in c.tags or 'catchup' in c.tags)) or 'longSkip' in c.tags or 'wrap' in c.tags,
     "plus `skip` lines: a real reader attached at generation g0 sleeps through n real publications (n up to 65535, incl. 16384, 32766, 32767 (the documented exception), 32768, across the 16-bit wrap and from an odd start) and then calls twice, sequentially. non-trivial = a reader makes >= 2 calls while >= 2 publications complete, or a quiescent fresh call checks the catch-up clause, or a skip of >= 16384 publications / across the wrap (tags calls2+pubs2, catchup, longSkip, wrap)",
-    gens=lambda seed, th: [['slgen', seed, 40000 if th else 1500], ['skipgen', 'all'] if th else ['skipgen'], ['crashgrid'], ['slxgen', 'all'] if th else ['slxgen'], ['session', seed, 20000 if th else 1000]],
-    relevant=lambda c: kind(c) in ('sl', 'skip', 'crashpt', 'slx', 'session'),
+    gens=lambda seed, th: [['slgen', seed, 40000 if th else 1500], ['skipgen', 'all'] if th else ['skipgen'], ['crashgrid'], ['slxgen', 'all'] if th else ['slxgen'], ['session', seed, 20000 if th else 1000], ['worldgen', seed, 10000 if th else 500]],
+    relevant=lambda c: kind(c) in ('sl', 'skip', 'crashpt', 'slx', 'slxc', 'session', 'world'),
     pre='build_cclient',
-    project=lambda c: proj_session('all')(c) if kind(c) == 'session' else proj_sl(c),
+    project=lambda c: proj_session('all')(c) if kind(c) == 'session' else (proj_world('queries')(c) if kind(c) == 'world' else proj_sl(c)),
     lean_modules=['ClockBound.Properties.C03', 'ClockBound.Properties.C03b'],
     technique='Lean 4 proof: coherence-based monotonicity invariant over all executions + catch-up theorem for fresh reads on a quiescent log + generation potential function for the 32767 exception; same schedule-level correspondence as C02',
     level_text='Theorems C03.accepted_monotone / cache_is_accepted_publication (the generation message behind a reader\'s cached snapshot never moves backwards), catches_up (no update in flight + fresh reads + cached generation differs => the call returns the latest completed publication), same_generation_serves_cache and equal_generation_same_message (the documented exception needs >= 32767 completed updates).',
@@ -375,7 +379,7 @@ PROPS.update({
  'C18': sl_entry('C18', lambda c: bool(c.tags & {'retry', 'crash', 'exhaust'}),
     "plus `slx` lines: the real snapshot() alone against scripted load results (a continuously updating writer: the generation changes at every load) until it gives up - the number of attempts must be exactly the budget; non-trivial = a call retried, the writer was killed mid-update, or the budget was exhausted",
     gens=lambda seed, th: [['slgen', seed, 20000 if th else 800], ['slxgen', 'all'] if th else ['slxgen'], ['client', seed, 20000 if th else 1500], ['session', seed, 20000 if th else 600]],
-    relevant=lambda c: kind(c) in ('sl', 'slx', 'client', 'session'),
+    relevant=lambda c: kind(c) in ('sl', 'slx', 'slxc', 'client', 'session'),
     also=['C14'],
     pre='build_cclient',
     project=lambda c: proj_client('class')(c) if kind(c) == 'client' else (proj_session('class')(c) if kind(c) == 'session' else proj_sl(c)),
@@ -407,7 +411,7 @@ PROPS['C01'] = dict(
 PROPS['C04'] = sl_entry('C04', lambda c: 'crash' in c.tags,
     "plus `crashpt` lines (file level): the real ShmWriter::new + first write is killed at EVERY hook point / shared access (k = 0..23) over 9 prior file states {missing, empty, garbage, wiped, valid with even / odd / near-wrap generation} + 3 FOREIGN priors {a 72-byte segment of another layout revision: second magic word wrong, plausible size / version / even, odd, near-wrap generation, and a payload} (+ layout versions 3 / 65535, and restarts over a file last modified two hours ago `@old` / with a non-UTF-8 name `@bin`), with a real reader attached beforehand when the segment was usable; then a restarted writer publishes; observed: what the dead writer left, whether it can be opened, inode/length, what the attached reader and a FRESH reader obtain both between the crash and the restart and after it. New clause (nobody reads what was never published): a fresh client that manages to attach after the crash and before the restart obtains the empty record, the record being published, or - over a usable prior only - the prior's record, never anything else (e.g. a foreign payload under a header the dead writer had just made valid). non-trivial = the writer was killed (tag crash)",
     gens=lambda seed, th: [['slgen', seed, 30000 if th else 1200], ['crashgrid'], ['slxgen', 'all'] if th else ['slxgen'], ['hdr-seg', seed, 20000 if th else 1500]],
-    relevant=lambda c: kind(c) in ('sl', 'crashpt', 'slx', 'seg'),
+    relevant=lambda c: kind(c) in ('sl', 'crashpt', 'slx', 'slxc', 'seg'),
     also=['C16'],
     exhaustive=True,
     lean_modules=['ClockBound.Properties.C04', 'ClockBound.Properties.C02', 'ClockBound.Properties.C03', 'ClockBound.Properties.C03b'],
@@ -464,3 +468,27 @@ for _p in ('C05', 'C06', 'C14', 'C12', 'C17', 'C03', 'C18'):
 for _p, _k in {'C18': ('slx', 'session'), 'C02': ('slx',), 'C03': ('slx', 'skip', 'session'), 'C04': ('slx',), 'C05': ('session', 'client'), 'C06': ('session', 'client'),
                'C12': ('session', 'corder'), 'C14': ('session', 'client'), 'C17': ('session', 'sandwich'), 'C16': ('open',)}.items():
     if _p in PROPS: PROPS[_p]['env_kinds'] = _k
+
+# release-profile pass (tools/check.py): generators run again through the harness built with the release profile
+_REL = {
+ 'C05': lambda seed, th: [['client', seed, 40000 if th else 3000], ['session', seed, 4000 if th else 300]],
+ 'C06': lambda seed, th: [['client', seed, 40000 if th else 3000], ['session', seed, 4000 if th else 300]],
+ 'C14': lambda seed, th: [['client', seed, 40000 if th else 3000], ['session', seed, 4000 if th else 300]],
+ 'C12': lambda seed, th: [['corder', seed, 4000 if th else 300], ['session', seed, 4000 if th else 300]],
+ 'C07': lambda seed, th: [['extract', seed, 200000 if th else 6000]],
+ 'C10': lambda seed, th: [['extract', seed, 200000 if th else 6000]],
+ 'C08': lambda seed, th: [['upd', seed, 10000 if th else 400]],
+ 'C09': lambda seed, th: [['upd', seed, 10000 if th else 400]],
+ 'C13': lambda seed, th: [['poll', seed, 3000 if th else 300]],
+ 'C11': lambda seed, th: [['genall']],
+ 'C18': lambda seed, th: [['slxgen']],
+ 'C02': lambda seed, th: [['slxgen']],
+ 'C03': lambda seed, th: [['skipgen'], ['slxgen']],
+ 'C04': lambda seed, th: [['crashgrid']],
+ 'C16': lambda seed, th: [['hdr-open', seed, 300]],
+ 'C17': lambda seed, th: [['hdr-open', seed, 300], ['session', seed, 4000 if th else 300]],
+}
+for _p, _g in _REL.items():
+    if _p in PROPS:
+        PROPS[_p]['release_gens'] = _g
+        PROPS[_p]['rule'] = PROPS[_p].get('rule', '') + ' || release profile: a share of the same generators runs through the harness built with the release profile (no overflow checks, no debug assertions), requests tagged `@release`; cases for which the model predicts a dev-profile panic are dropped'
